@@ -25,6 +25,7 @@ class Report:
     def __init__(self, pid, tier):
         self.pid = pid
         self.tier = tier
+        self.prefix = ""
         self.results = []   # dict(rule, key, ok, detail, site, vacuous)
         self.notes = []
         self.analysed = {}
@@ -34,10 +35,10 @@ class Report:
         self.rules_applied[rid] = text
 
     def ok(self, rule, key, detail="", site=None):
-        self.results.append({"rule": rule, "key": key, "ok": True, "detail": detail, "site": site})
+        self.results.append({"rule": rule, "key": self.prefix + key, "ok": True, "detail": detail, "site": site})
 
     def bad(self, rule, key, detail="", site=None):
-        self.results.append({"rule": rule, "key": key, "ok": False, "detail": detail, "site": site})
+        self.results.append({"rule": rule, "key": self.prefix + key, "ok": False, "detail": detail, "site": site})
 
     def check(self, cond, rule, key, detail_ok="", detail_bad="", site=None):
         if cond:
@@ -56,9 +57,11 @@ class Ctx:
         self.tier = tier
         self.root = root
         self._progs = {}
+        self.cfg_override = None
         self.report = Report(pid, tier)
 
     def prog(self, cfg="trusted"):
+        cfg = self.cfg_override or cfg
         p = self._progs.get(cfg)
         if p is None:
             p = Program(cfg, root=self.root)
@@ -86,6 +89,16 @@ def run_property(pid, tier, root=None, write_evidence=True):
         from . import selfcheck
         selfcheck.run(rep)
         mod.run(ctx)
+        if tier == "thorough":
+            # cross-configuration: the same rules must hold where test seams and delta validation are compiled in
+            for cfg in getattr(mod, "THOROUGH_CONFIGS", ("full",)):
+                ctx.cfg_override = cfg
+                rep.prefix = cfg + ":"
+                mod.run(ctx)
+            ctx.cfg_override = None
+            rep.prefix = ""
+            from . import witnesses
+            witnesses.run(pid, rep)
     except AnchorMissing as e:
         rep.bad("anchor", "anchor-missing:" + str(e).split(" (")[0], str(e))
     except SystemExit as e:
@@ -107,14 +120,17 @@ def run_property(pid, tier, root=None, write_evidence=True):
     unlisted = []
     listed = []
     for v in violations:
-        kk = (pid, v["key"])
+        kk = (pid, v["key"].split(":", 1)[1] if v["key"].startswith(("full:", "default:")) else v["key"])
         if kk in known_keys:
             listed.append(v)
         else:
             unlisted.append(v)
     os.makedirs(REPLAY, exist_ok=True)
     for v in listed:
-        print("KNOWN-FINDING: property=%s %s — %s" % (pid, v["key"], known_keys[(pid, v["key"])].get("what", v["detail"])))
+        kk = v["key"].split(":", 1)[1] if v["key"].startswith(("full:", "default:")) else v["key"]
+        if v["key"] != kk:
+            continue  # same finding seen again in another build configuration: report once
+        print("KNOWN-FINDING: property=%s %s — %s" % (pid, v["key"], known_keys[(pid, kk)].get("what", v["detail"])))
     for v in unlisted:
         safe = "".join(c if c.isalnum() or c in "-_." else "_" for c in v["key"])[:120]
         rp = os.path.join(REPLAY, "%s-%s.json" % (pid, safe))
